@@ -111,6 +111,10 @@ var handShaped = []string{
 	"/p 1 array def p 0 {p 0 get exec} put p 0 get exec", // procedure stored in a container reachable from itself
 	"{1} loop", "{1 dict begin} loop", "{} loop", "{dup} loop", "1 {dup} loop", "{count} loop",
 	"{{1} exec} loop", "0 1 1000000 {} for", "0 0 1 {} for", "0 0 1 {pop} for", "1000000 {1} repeat", "1000000 {} repeat",
+	// operators whose work depends on a size: each still counts as one operation
+	"65536 string pop 1 2 add pop", "65536 array pop 1 2 add pop", "65536 dict pop 1 2 add pop",
+	"1024 string 1023 get pop 1", "4096 array 0 4096 getinterval length", "2000 array dup 0 1000 array putinterval length 1 add",
+	"65536 string dup copy length", "3 {4096 string pop} repeat 7", "60000 array 59999 1 put 1 1 add", "1023 string pop 1025 string pop 1",
 	"errordict /stackunderflow {pop} put pop",
 	"errordict /undefined {foo} put foo",
 	"errordict /typecheck {1 (a) add} put 1 (a) add",
@@ -335,6 +339,56 @@ func acrossCallsBody(progs []string) func(c *mc.Ctx, item int) mc.Verdict {
 		v := mc.Pass("same-as-one-call", true)
 		if c.Render() {
 			v.Render = fmt.Sprintf("`%s` | `%s` budget %d → NumOps=%d err=%s, as in one call", prog[:cut], prog[cut:], n, two.numOps, errStr(two.err))
+		}
+		return v
+	}
+}
+
+// ---------------------------------------------------------------------------
+// runaway growth inside other contexts
+
+// The limits hold wherever the growing code runs: at top level (family above),
+// inside a user-installed error handler, inside procedures run by forall / a
+// name / bind / exec, with an extra dictionary open, and inside an eexec
+// section.  A generous budget is only a safety net: ending by budget means the
+// limit was not enforced.
+var growthContexts = []struct{ name, pre, post string }{
+	{"error handler (typecheck)", "errordict /typecheck { ", " } put 1 (a) add"},
+	{"error handler (undefined)", "errordict /undefined { ", " } put nosuchname"},
+	{"error handler (stackunderflow)", "errordict /stackunderflow { ", " } put pop"},
+	{"error handler (rangecheck)", "errordict /rangecheck { ", " } put (abc) 7 get"},
+	{"forall body", "[1] { pop ", " } forall"},
+	{"named procedure", "/q { ", " } def q"},
+	{"bound procedure", "{ ", " } bind exec"},
+	{"extra dictionary", "1 dict begin ", " end"},
+	{"handler installed through begin/def", "errordict begin /typecheck { ", " } def end 1 (a) add"},
+	{"handler inside handler", "errordict /typecheck { nosuchname } put errordict /undefined { ", " } put 1 (a) add"},
+}
+
+func contextGrowthBody(cases []growth) func(c *mc.Ctx, item int) mc.Verdict {
+	return func(c *mc.Ctx, item int) mc.Verdict {
+		gc := cases[item%len(cases)]
+		ctx := growthContexts[item/len(cases)]
+		prog := ctx.pre + gc.prog + ctx.post
+		intp := postscript.NewInterpreter()
+		intp.MaxOps = 3_000_000
+		err := intp.ExecuteString(prog)
+		c.Step()
+		name := pscmp.ErrName(err)
+		fail := func(class, detail string) mc.Verdict {
+			v := mc.Fail("C11:growth-in-context:"+class, fmt.Sprintf("program `%s` (%s): %s", prog, ctx.name, detail))
+			v.Render = prog
+			return v
+		}
+		if len(intp.Stack) > 1100 || len(intp.DictStack) > 20 {
+			return fail("unbounded", fmt.Sprintf("operand stack %d, dictionary stack %d, ended with %q", len(intp.Stack), len(intp.DictStack), errStr(err)))
+		}
+		if err == postscript.ErrExecutionLimitExceeded {
+			return fail("limit-not-enforced", fmt.Sprintf("ran until the safety budget of 3,000,000 operations (operand stack %d, dictionary stack %d) instead of ending with one of %q", len(intp.Stack), len(intp.DictStack), gc.want))
+		}
+		v := mc.Pass("cutoff:"+name, true)
+		if c.Render() {
+			v.Render = prog + " → " + errStr(err)
 		}
 		return v
 	}
@@ -594,6 +648,14 @@ func main() {
 				}
 			}
 			gc := growthCases()
+			// the hand-written shapes (everything before the generated nesting chains)
+			var coreGrowth []growth
+			for _, g := range gc {
+				if strings.HasPrefix(g.prog, "{1 } exec") {
+					break
+				}
+				coreGrowth = append(coreGrowth, g)
+			}
 			small2 := genPrograms(2, 2, atoms, constructs)
 			return []mc.Family{
 				{
@@ -605,6 +667,11 @@ func main() {
 				{
 					Name: "budget-across-execute-calls", Items: len(small2), Body: acrossCallsBody(small2), Budget: budget,
 					Rule: fmt.Sprintf("%d terminating programs (shapes with <= 2 statements) x every cut after a token (also inside an unfinished procedure body) x every budget N in 1..ops+2: the two pieces fed in consecutive Execute calls to one interpreter must give the same error identity, the same cumulative NumOps and the same state as the single call with the same budget; non-trivial = every comparison", len(small2)),
+				},
+				{
+					Name: "runaway-growth-in-contexts", Items: len(coreGrowth) * len(growthContexts), Body: contextGrowthBody(coreGrowth), Budget: budget,
+					Rule: fmt.Sprintf("the %d hand-written growth shapes (operand stack, dictionary stack, recursion through names/procedures/aliases/handlers, oversized requests) x %d contexts (inside a user-installed handler for typecheck / undefined / stackunderflow / rangecheck, a handler installed with begin/def, a handler entered from another handler, a forall body, a named procedure, a bound procedure, an extra open dictionary), run with a safety budget of 3,000,000 operations: the run must end before the budget does, with operand stack <= 1100 and dictionary stack <= 20; non-trivial = all", len(coreGrowth), len(growthContexts)),
+					CrashKey: func(i int) string { return "C11:crash:growth-in-context:" + coreGrowth[i%len(coreGrowth)].prog },
 				},
 				{
 					Name: "runaway-growth-unbudgeted", Items: len(gc), Body: growthBody(gc), Budget: budget,
